@@ -28,8 +28,9 @@ CfgMut      == {Mk(<<2, 1>>, <<0, 1>>, Shared), Mk(<<3, 2>>, <<0, 1>>, Separate)
 
 \* history runs (clock, literal window formula): h1 observed, h2 the environment
 CfgHistQuick == {Mk(s1, s2, Shared) : s1 \in {<<2, 1>>, <<3, 2>>}, s2 \in {<<0, 1>>}}
-CfgHist      == {Mk(s1, s2, qs) : s1 \in AllSettings, s2 \in {<<0, 1>>, <<2, 1>>}, qs \in {Shared}}
-               \cup {Mk(s1, <<2, 1>>, Multi) : s1 \in {<<2, 1>>, <<3, 2>>}}
+CfgHist      == {Mk(s1, <<0, 1>>, Shared) : s1 \in AllSettings}
+               \cup {Mk(s1, <<2, 1>>, Shared) : s1 \in {<<2, 1>>, <<3, 1>>}}
+               \cup {Mk(s1, <<0, 1>>, Multi) : s1 \in {<<2, 1>>, <<3, 2>>}}
 \* monitor = window formula on arbitrary start sequences of one hook
 CfgEquiv     == {Mk(s1, <<0, 1>>, OnlyH1) : s1 \in AllSettings}
 
